@@ -6,7 +6,8 @@ Hooks for bin/check (register as  "custom": ["probes:probes_c10"]  etc. in bin/p
     probes_c10(pid, tier, seed, log)   secret types: no Display / ToString, == only under the feature, verifier not Clone
     probes_c11(pid, tier, seed, log)   endpoint-gated methods x {unset, set, conditionally set}
     probes_c17(pid, tier, seed, log)   request_async futures are Send with the bundled reqwest client
-Standalone:  bin/probes.py --run c10|c11|c17 [--tier quick|thorough] [--keep]   (prints the hook's result as JSON)
+Standalone:  bin/probes.py --run c10|c11|c17 [--tier quick|thorough] [--log]   (prints the hook's result as JSON;
+             exit 0 = all probes as expected, 1 = violation, 2 = tooling error / broken probe)
 
 How a verdict is reached (DESIGN §8, "compile probes"):
   * every probe is one [[bin]] of a scratch crate under <verif>/.build/probes/<crate>/ with a path dependency on
@@ -652,6 +653,9 @@ def run_groups(pid, groups, log):
             p.meta["oauth2_dep"] = "oauth2 = { path = \"%s\"%s }" % (REPO, opts)
             judge(p)
         if foreign:
+            for p in probes:
+                if p.verdict == "broken" and not p.errors:
+                    p.meta["crate_failed"] = True   # covered by the crate-level message below
             tooling.append("%s: probe crate '%s' - compile errors outside the probes (the checked repository or a "
                            "dependency does not build with these features); no verdict from this crate:\n%s"
                            % (pid, crate, "\n".join(foreign[:3])[:2500]))
@@ -688,7 +692,7 @@ def assemble(pid, probes, tooling, timings, cmds, extra_cov):
                 "marked_line": p.line_of(MARK), "crate": p.meta.get("crate"), "oauth2_dep": p.meta.get("oauth2_dep"),
                 "rerun": "%s   # or: bin/probes.py --run %s" % (cmds.get(p.meta.get("crate"), ""), pid.lower()),
             }, True))
-        else:
+        elif not p.meta.get("crate_failed"):
             tooling.append("%s: BROKEN PROBE %s (%s): %s" % (pid, p.name, p.polarity, p.detail[:1200]))
 
     def sample(p):
@@ -764,7 +768,10 @@ def _c10(pid, tier, log):
     if not types:
         return {"coverage": {"probe_programs": 0}, "violations": [], "known_lines": [],
                 "tooling": ["C10: no new_secret_type! invocation found in %s/src/types.rs" % REPO]}
-    names = [t for t, _, _ in types]
+    found = [t for t, _, _ in types]
+    # probed = the ten types the property names (whatever way they are declared now) + every further type declared
+    # through the macro; a listed type that left the macro must not drop out of the check
+    names = found + [t for t in C10_LISTED if t not in found]
     default, timing = [], []
     E_FMT = {"E0277", "E0599"}
     for t in names:
@@ -807,21 +814,17 @@ def _c10(pid, tier, log):
     groups = [("c10-default", "", "", default),
               ("c10-timing", ', features = ["%s"]' % TIMING_FEATURE, "", timing)]
     probes, tooling, timings, cmds = run_groups(pid, groups, log)
-    if NOT_CLONE not in names:
-        tooling.append("C10: %s is no longer declared through new_secret_type!; the no-Clone probe could not be generated" % NOT_CLONE)
-    missing = [t for t in C10_LISTED if t not in names]
+    missing = [t for t in C10_LISTED if t not in found]
     extra = {
-        "secret_types_found": names,
-        "secret_types_count": len(names),
-        "secret_types_note": ("10 as the property lists" if sorted(names) == sorted(C10_LISTED) else
-                              "differs from the property's list: not declared through new_secret_type!: %s; additional: %s"
-                              % (missing, [t for t in names if t not in C10_LISTED])),
+        "secret_types_found": found,
+        "secret_types_count": len(found),
+        "secret_types_probed": names,
+        "secret_types_note": ("10 as the property lists" if sorted(found) == sorted(C10_LISTED) else
+                              "differs from the property's list: not declared through new_secret_type! (still probed): %s; "
+                              "additional (probed as well): %s" % (missing, [t for t in found if t not in C10_LISTED])),
         "feature_crates": {"c10-default": "oauth2 default features (no %s)" % TIMING_FEATURE,
                            "c10-timing": "default features + %s" % TIMING_FEATURE},
     }
-    if missing:
-        tooling.append("C10: secret types the property names are not declared through new_secret_type! any more: %s "
-                       "(no probes generated for them)" % missing)
     return assemble(pid, probes, tooling, timings, cmds, extra)
 
 
@@ -870,13 +873,18 @@ def _c11(pid, tier, log):
     baseline = json.load(open(os.path.join(PROBES_SRC, "c11_baseline.json")))
     endpoints = [g for g, _ in inv["endpoints"]]
     discovered = {m: e["endpoint"] for m, e in inv["gated"].items() if "set" in e or "maybe" in e}
+    # which endpoint a method OUGHT to be gated on comes from the property (the baseline), never from the source
+    # being checked; discovery only adds methods the baseline does not know (their endpoint is then the source's).
     table = dict(discovered)
-    not_gated_any_more = []
+    not_gated_any_more, endpoint_mismatch = [], {}
     for g, ms in baseline["methods"].items():
         for m in ms:
-            if m not in table:
-                table[m] = g
+            if m not in discovered:
                 not_gated_any_more.append(m)
+            elif discovered[m] != g:
+                endpoint_mismatch[m] = {"property": g, "source": discovered[m]}
+            table[m] = g
+    new_methods = sorted(m for m in discovered if not any(m in ms for ms in baseline["methods"].values()))
     tooling, probes = [], []
     rows = {}
     CODES = {"E0599", "E0277"}
@@ -937,6 +945,8 @@ def _c11(pid, tier, log):
                                   "(the pinned tree has 2 authorization + 6 token + 2 device + 2 introspection + 2 revocation = 14)" % stated)),
         "gated_methods": rows,
         "baseline_methods_no_longer_in_gated_blocks": not_gated_any_more,
+        "gated_on_a_different_endpoint_than_the_property_says": endpoint_mismatch,
+        "gated_methods_not_in_baseline": new_methods,
         "methods_only_in_one_gated_state": sorted(m for m, e in inv["gated"].items() if ("set" in e) != ("maybe" in e)),
         "setters": {g: {st: v[0] for st, v in d.items()} for g, d in inv["setters"].items()},
         "states_per_method": 3,
@@ -992,14 +1002,20 @@ def _c17(pid, tier, log):
     for ty in sorted(kinds):
         rfn, rfile = kinds[ty]
         producers = sorted(m for m, e in inv["gated"].items() if "set" in e and ret_head(e["set"]["ret"]) == ty)
-        if not producers:
-            tooling.append("C17: no set-state method of Client returns %s (%s); its request_async future is not probed" % (ty, rfile))
-            continue
-        m = producers[0]
-        e = inv["gated"][m]
-        fn = e["set"]
+        if producers:
+            m = producers[0]
+            fn, need = inv["gated"][m]["set"], [inv["gated"][m]["endpoint"]]
+        else:
+            # not built by a set-state method (any more): any pub fn of Client returning it, with whatever
+            # endpoints its impl block fixes
+            anyp = sorted(n for n, (f, _) in inv["anywhere"].items() if ret_head(f["ret"]) == ty and not n.startswith("set_"))
+            if not anyp:
+                tooling.append("C17: no pub fn of Client returns %s (%s); its request_async future cannot be probed" % (ty, rfile))
+                continue
+            m = anyp[0]
+            fn, need = inv["anywhere"][m]
         aparams, args = call_pieces(fn, inv["impl_gmap"])
-        sp, chain = setter_chain(inv, {e["endpoint"]: "set"})
+        sp, chain = setter_chain(inv, {g: "set" for g in need})
         # arguments of request_async: http client by reference, sleep function, optional timeout
         rargs, ok = [], True
         for nm, pty in rfn["params"]:
